@@ -1006,7 +1006,11 @@ func readTcbInfoTcbStatus(tcbInfo pcs.TcbInfo, tdQuoteBody *pb.TDQuoteBody, pckC
 			return pcs.TcbLevel{}, err
 		}
 		logger.V(2).Info("Tdx Module TCB Status found: ", matchingTdxModuleTcbLevel.TcbStatus)
-		return *matchingTdxModuleTcbLevel, nil
+		// The platform TCB level and the TDX module TCB level both have to be UpToDate:
+		// the module's level only decides when the platform's level does not already fail.
+		if matchingTcbLevel.TcbStatus == pcs.TcbComponentStatusUpToDate {
+			return *matchingTdxModuleTcbLevel, nil
+		}
 	}
 
 	logger.V(2).Info("TCB Status found: ", matchingTcbLevel.TcbStatus)
